@@ -699,3 +699,43 @@ MUTANTS = [
     ("user_error_exits_1", _CMD, "                err=True,\n            )\n            sys.exit(EXIT_ERROR)", "                err=True,\n            )\n            sys.exit(EXIT_FAIL)"),
     ("user_error_wrong_class", _CMD, "        if exc_type is SQLFluffUserError:", "        if exc_type is SQLBaseError:"),
 ]
+
+
+# ------------------------------------------------------------------ violations cross process boundaries unchanged (bounded)
+def pickled_violations_keep_their_flags(tier="quick", seed=0):
+    """BOUNDED: with --processes > 1 every violation reaches the parent process through pickle (`__reduce__`); the flags the exit
+    code depends on -- ignore (noqa / --ignore), warning (`warnings = ...`), fatal -- and the fixes must survive the round trip,
+    or the same run exits differently depending on the number of processes.  Real violations of real lint runs, every flag
+    combination."""
+    import itertools, pickle
+    from sqlfluff.core import Linter, FluffConfig
+    failed, samples, ev = [], [], 0
+    sqls = ["SELECT a  from tbl WHERE a ! 3\n", "select a,b FROM t\n", "SELECT {{ undefined_xyz }} FROM t\n", "SELECT * FROM t JOIN u\n", "SELECT \u00bf FROM t\n"]
+    for sql in sqls:
+        lf = Linter(config=FluffConfig(overrides={"dialect": "ansi"})).lint_string(sql, fix=True)
+        for v in lf.violations:
+            for ignore, warning in itertools.product((False, True), repeat=2):
+                ev += 1
+                v.ignore, v.warning = ignore, warning
+                w = pickle.loads(pickle.dumps(v))
+                before = (type(v).__name__, v.rule_code(), v.line_no, v.line_pos, v.desc(), v.ignore, v.warning, v.fatal, len(getattr(v, "fixes", []) or []))
+                after = (type(w).__name__, w.rule_code(), w.line_no, w.line_pos, w.desc(), w.ignore, w.warning, w.fatal, len(getattr(w, "fixes", []) or []))
+                if len(samples) < 3:
+                    samples.append({"violation": before})
+                if before != after and not failed:
+                    failed.append({"name": "C22/pickle/flags-survive", "id": "C22/pickle/flags-survive", "kind": "bounded", "status": "failed",
+                                   "function": f"sqlfluff.core.errors:{type(v).__name__}.__reduce__",
+                                   "detail": {"sql": sql, "before (class, code, line, pos, description, ignore, warning, fatal, fixes)": before,
+                                              "after pickle round trip": after}, "reproduced": True})
+            v.ignore, v.warning = False, False
+    return {"name": "pickled-violations", "bound": f"every violation of {len(sqls)} real lint runs x 4 (ignore, warning) combinations",
+            "rule": "one evaluation = one pickle round trip of a real violation object; all are non-trivial",
+            "evaluations": ev, "distinct_nontrivial": ev, "samples": samples, "failed": failed}
+
+
+BOUNDED = list(globals().get("BOUNDED", [])) + [pickled_violations_keep_their_flags]
+MUTANTS = list(globals().get("MUTANTS", [])) + [
+    ("lint_error_pickle_drops_warning", "sqlfluff/core/errors.py",
+     "            self.fixes,\n            self.ignore,\n            self.fatal,\n            self.warning,\n        )",
+     "            self.fixes,\n            self.ignore,\n            self.fatal,\n        )"),
+]
